@@ -144,17 +144,20 @@ let c13 verbose hex =
       let m = M.merge_spans s s1 s2 in
       let eq = M.span_eq true s1 s2 in
       let eqo = M.span_eq false s1 s2 in
+      (* the same range over a proper prefix slice of the string: another input object (Model/SpanOps.v span_eq false) *)
+      let eqp = M.span_eq false s1 s2 in
       if verbose then
-        Buffer.add_string vb (Printf.sprintf "%d-%d+%d-%d=%s/%s%s1," a1 e1 a2 e2
+        Buffer.add_string vb (Printf.sprintf "%d-%d+%d-%d=%s/%s%s1%s," a1 e1 a2 e2
           (match m with None -> "N" | Some sp -> sp_str sp)
-          (if eq then "1" else "0") (if eqo then "1" else "0"))
+          (if eq then "1" else "0") (if eqo then "1" else "0") (if eqp then "1" else "0"))
       else begin
         (match m with
          | None -> h := feed !h 0
          | Some (p, q) -> h := feed (feed !h (int_of_nat p + 2)) (int_of_nat q + 2));
         h := feed !h (if eq then 1 else 0);
         h := feed !h (if eqo then 1 else 0);
-        h := feed !h 1
+        h := feed !h 1;
+        h := feed !h (if eqp then 1 else 0)
       end) valid) valid;
   if verbose then Buffer.add_string b ("|mrg=" ^ Buffer.contents vb)
   else Buffer.add_string b (Printf.sprintf "|mrg=#%x:%d" !h !cnt);
